@@ -330,12 +330,25 @@ Proof.
 Qed.
 
 (* ---------- save + reopen of a table without merges: same values, own positions ---------- *)
-Lemma reopen_nomerge_vals t : merges t = [] -> wf t -> (0 < nrows t) ->
+Lemma reopen_ncols t : wf t ->
+  (if Z.of_nat (length (data t)) =? 0 then ncols t else Z.of_nat (length (nth 0 (data t) []))) = ncols t.
+Proof.
+  intros (A & B & C). destruct (data t) as [|row0 rest] eqn:E; [reflexivity|].
+  replace (Z.of_nat (length (row0 :: rest)) =? 0) with false by (symmetry; apply Z.eqb_neq; cbn [length]; lia).
+  cbn [nth]. exact (Forall_inv C).
+Qed.
+
+Lemma reopen_dims t : wf t -> nrows (reopen t) = nrows t /\ ncols (reopen t) = ncols t.
+Proof.
+  intros Hw. pose proof (reopen_ncols t Hw) as Hnc. destruct Hw as (A & B & C).
+  unfold reopen. cbn [nrows ncols]. split; [lia | exact Hnc].
+Qed.
+
+Lemma reopen_nomerge_vals t : merges t = [] -> wf t ->
   vals (reopen t) = map (map (fun x => if cplace x then None else cval x)) (data t) /\ pos_ok (reopen t).
 Proof.
-  intros Hm (A & B & C) Hr. unfold reopen. rewrite Hm. cbn [reload_merges fold_left].
-  assert (Hnc : Z.of_nat (length (nth 0 (data t) [])) = ncols t).
-  { destruct (data t) as [|row0 rest] eqn:E; [cbn in A; lia|]. cbn [nth]. exact (Forall_inv C). }
+  intros Hm Hw. pose proof (reopen_ncols t Hw) as Hnc. destruct Hw as (A & B & C).
+  unfold reopen. rewrite Hm. cbn [reload_merges fold_left].
   rewrite Hnc. split.
   - unfold vals. cbn [data]. rewrite map_map.
     transitivity (map (fun p => map (fun x => if cplace x then None else cval x) (snd p))
@@ -494,21 +507,21 @@ Proof.
   apply Forall_map. apply Forall_forall. intros r _. apply Forall_map. apply Forall_forall. intros; reflexivity.
 Qed.
 
-(* the saved file of any reachable (merge-free) table with at least one row reopens to the same grid of values,
-   every cell again reporting its own position *)
+(* the saved file of any reachable (merge-free) table - also one emptied of all its rows or columns - reopens to the
+   same grid of values with the same dimensions, every cell again reporting its own position *)
 Theorem save_reopen_grid_lemma nr nc ops :
   let t := run (new_table nr nc) ops in
-  0 <= nr -> 0 <= nc -> 0 < nrows t ->
-  vals (reopen t) = vals t /\ pos_ok (reopen t).
+  0 <= nr -> 0 <= nc ->
+  vals (reopen t) = vals t /\ pos_ok (reopen t) /\ nrows (reopen t) = nrows t /\ ncols (reopen t) = ncols t.
 Proof.
-  intros t Hr Hc Hpos.
+  intros t Hr Hc.
   assert (Hw : wf t) by (apply grid_wf_reachable_lemma; assumption).
   assert (Hn : nomerge t).
   { unfold t, run. assert (G : forall ops t0, nomerge t0 -> nomerge (fold_left step ops t0)).
     { clear. induction ops as [|o ops IH]; intros t0 H; cbn [fold_left]; [assumption|]. apply IH, nomerge_step, H. }
     apply G, nomerge_new. }
   destruct Hn as [Hm Hp].
-  destruct (reopen_nomerge_vals t Hm Hw Hpos) as [V P]. split; [|exact P].
+  destruct (reopen_nomerge_vals t Hm Hw) as [V P]. split; [|split; [exact P | exact (reopen_dims t Hw)]].
   rewrite V. unfold vals. apply map_ext_in. intros row Hin.
   apply map_ext_in. intros x Hx.
   pose proof (proj1 (Forall_forall _ _) (proj1 (Forall_forall _ _) Hp row Hin) x Hx) as Hpl.
